@@ -7,7 +7,7 @@ import vlib
 
 
 def run_scenario(sc, timeout=90):
-    arg = json.dumps({k: sc[k] for k in ("kind", "n", "seed", "progress", "second", "concurrent")})
+    arg = json.dumps(dict({k: sc[k] for k in ("kind", "n", "seed", "progress", "second", "concurrent")}, pre=bool(sc.get("pre", False))))
     import os
     env = dict(os.environ, RAYON_NUM_THREADS=str(sc["threads"]), RUST_BACKTRACE="0")
     try:
@@ -42,6 +42,7 @@ def run(ctx):
     ns = (1, 2, 3, 5) if thorough else (2, 3)
     ns = ns + (600, 40)
     base = [s for s in allsc if s["n"] in ns and s["threads"] == 1 and s["concurrent"] == "none" and not s["progress"] and not s["second"]]
+    # (includes the scenarios with pre = TRUE: the sampler is used before it is seeded -- same closed form, see Gen_Seeds)
     # every large-batch HMC class also under a second pool size
     base += [s for s in allsc if s["n"] == 600 and s["threads"] == 4 and not s["progress"] and not s["second"]]
     # 40 chains of the generic runner under every pool size (rows must stay in chain order whatever the completion order)
@@ -62,7 +63,7 @@ def run(ctx):
         hashes = res["all"] if res["all"] else [res["hash"]]
         for h in hashes:
             rows.append({"e": "run", "kind": sc["kind"], "n": sc["n"], "expect": sc["expect"], "cls": cls, "seed": sc["seed"],
-                         "threads": sc["threads"], "concurrent": sc["concurrent"], "progress": sc["progress"], "second": sc["second"],
+                         "threads": sc["threads"], "concurrent": sc["concurrent"], "progress": sc["progress"], "second": sc["second"], "pre": bool(sc.get("pre", False)),
                          "hash": h or "none", "panic": res["panic"] or "none"})
     ctx.cov["evaluations"] += len(rows)
     ctx.cov["distinct_nontrivial"] += len({(r_["kind"], r_["n"], r_["expect"], r_["cls"]) for r_ in rows})
